@@ -42,6 +42,9 @@ var opNames = []string{"Decode", "Token", "More", "Buffered", "InputOffset"}
 type DecCall struct {
 	Op     int `json:"op"`
 	Target int `json:"target,omitempty"`
+	// Prefill: the target is not a zero value but what decoding this text (with encoding/json)
+	// leaves in it - decoding then merges into existing maps, reuses pointers, truncates slices
+	Prefill sim.Bytes `json:"prefill,omitempty"`
 }
 
 // Function API calls.
@@ -69,6 +72,7 @@ type FnCall struct {
 	Text     sim.Bytes `json:"text"`
 	Target   int       `json:"target,omitempty"`
 	TypeSeed uint64    `json:"type_seed,omitempty"`
+	Prefill  sim.Bytes `json:"prefill,omitempty"` // decode targets start from what this text decodes to (see DecCall)
 	Escape   bool      `json:"escape,omitempty"`
 	Prefix   string    `json:"prefix,omitempty"`
 	Indent   string    `json:"indent,omitempty"`
@@ -242,6 +246,13 @@ func errRender(err error) string {
 			}
 			switch f.Name {
 			case "Offset", "Value", "Struct", "Field", "Key":
+				if rv, isRV := e.Field(i).Interface().(reflect.Value); isRV {
+					// (UnsupportedValueError.Value: %v would print pointer addresses)
+					if rv.IsValid() {
+						fmt.Fprintf(&sb, "|%s:%s", f.Name, rv.Type())
+					}
+					continue
+				}
 				fmt.Fprintf(&sb, "|%s=%v", f.Name, e.Field(i).Interface())
 			case "Type":
 				fmt.Fprintf(&sb, "|Type=%v", e.Field(i).Interface())
@@ -311,7 +322,7 @@ func runDecFork(s *Scen, script []ReadStep, w *simrt.World) *decRun {
 		guard(&res, func() {
 			switch c.Op {
 			case OpDecode:
-				t := NewTarget(c.Target, s.TypeSeed)
+				t := PrefilledTarget(c.Target, s.TypeSeed, c.Prefill)
 				err := dec.Decode(t)
 				res.Val, res.Err = Render(t, false), errRender(err)
 			case OpToken:
@@ -349,7 +360,7 @@ func runDecStd(s *Scen, script []ReadStep) *decRun {
 		guard(&res, func() {
 			switch c.Op {
 			case OpDecode:
-				t := NewTarget(c.Target, s.TypeSeed)
+				t := PrefilledTarget(c.Target, s.TypeSeed, c.Prefill)
 				err := dec.Decode(t)
 				res.Val, res.Err = Render(t, false), errRender(err)
 			case OpToken:
@@ -614,6 +625,20 @@ func typedText(g *gen.G, typeSeed uint64) (int, string) {
 	return t, text
 }
 
+// prefillFor returns a text to pre-populate a decode target with (empty: zero value).
+func prefillFor(g *gen.G, target int, typeSeed uint64) sim.Bytes {
+	if !g.R.P(250) {
+		return nil
+	}
+	switch target {
+	case TAny:
+		return sim.Bytes(g.Value(2))
+	case TRaw, TString, TFloat, TInt, TUint64, TBytes:
+		return sim.Bytes(GenFor(g, TargetType(target, typeSeed), 1))
+	}
+	return sim.Bytes(GenFor(g, TargetType(target, typeSeed), 3))
+}
+
 // Gen generates one scenario from a seed.
 func Gen(seed uint64) *Scen {
 	r := gen.NewR(seed)
@@ -652,14 +677,15 @@ func Gen(seed uint64) *Scen {
 				if r.P(100) {
 					s.DecCalls = append(s.DecCalls, DecCall{Op: []int{OpMore, OpOffset, OpBuffered}[r.Intn(3)]})
 				}
-				s.DecCalls = append(s.DecCalls, DecCall{Op: OpDecode, Target: k})
+				s.DecCalls = append(s.DecCalls, DecCall{Op: OpDecode, Target: k, Prefill: prefillFor(g, k, s.TypeSeed)})
 			}
 			s.DecCalls = append(s.DecCalls, DecCall{Op: OpDecode, Target: TAny})
 		}
 		for i := 0; i < n; i++ {
 			switch y := r.Intn(100); {
 			case y < 50:
-				s.DecCalls = append(s.DecCalls, DecCall{Op: OpDecode, Target: pickTarget(r, p)})
+				tk := pickTarget(r, p)
+				s.DecCalls = append(s.DecCalls, DecCall{Op: OpDecode, Target: tk, Prefill: prefillFor(g, tk, s.TypeSeed)})
 			case y < 75:
 				s.DecCalls = append(s.DecCalls, DecCall{Op: OpToken})
 			case y < 85:
@@ -735,6 +761,9 @@ func Gen(seed uint64) *Scen {
 					target, text = typedText(g, s.TypeSeed)
 				}
 				c = FnCall{Fn: r.Intn(NumF), Text: sim.Bytes(text), Target: target, TypeSeed: s.TypeSeed, Escape: r.Bool()}
+				if c.Fn <= FUnmarshalValidWithKeys {
+					c.Prefill = prefillFor(g, target, s.TypeSeed)
+				}
 				if c.Fn == FMarshalIndent || c.Fn == FIndent {
 					c.Prefix = r.Pick([]string{"", "", ">", " "})
 					c.Indent = r.Pick([]string{"", " ", "\t", "  "})
